@@ -11,8 +11,9 @@ FROM_BYTES = ('impl Packet', 'from_bytes')
 
 def build(repo):
     u = Unit(NAME, repo)
-    u.prelude('std_stubs.rs', 'views.rs', 'wire.rs')
+    u.prelude('std_stubs.rs', 'views.rs', 'wire.rs', 'encwire.rs')
     u.raw(common.registry.class_spec(), 'spec/registry.py:class_spec')
+    u.prelude('pktview.rs')
     u.raw(common.HEADERRAW_TRYFROM_SPEC + '''
 // R4: options.entry(n).or_default().push_back(v)  (std entry API, trusted; view-level contract)
 #[verifier::external_body]
@@ -20,10 +21,6 @@ fn options_push_back(options: &mut BTreeMap<u16, VecDeque<Vec<u8>>>, n: u16, v: 
     ensures opts_view(*final(options)) == push_opt(opts_view(*old(options)), n, v@)
 { options.entry(n).or_default().push_back(v); }
 
-pub open spec fn pkt_matches(p: Packet, m: MsgSpec) -> bool {
-    p.header.ver_type_tkl == m.vtt && p.header.code == class_of_u8(m.code) && p.header.message_id == m.mid
-    && p.token@ == m.token && opts_view(p.options) == group(m.opts) && p.payload@ == m.payload
-}
 ''', 'units/dec.py')
     common.header_items(u)
     common.packet_struct(u)
@@ -51,7 +48,11 @@ pub open spec fn pkt_matches(p: Packet, m: MsgSpec) -> bool {
             // `lenient` ones (version != 1, empty payload after the marker, content in 0.00)
             parse_msg(buf@) is Some && !lenient(buf@) ==> r is Ok,
             // and returns exactly the fields the grammar defines
-            r is Ok ==> parse_msg(buf@) is Some && pkt_matches(r->Ok_0, parse_msg(buf@)->0),''', props=PROPS)
+            r is Ok ==> parse_msg(buf@) is Some && pkt_matches(r->Ok_0, parse_msg(buf@)->0),
+            // C01 needs its own messages parsed back whatever their version / code: today's parser
+            // accepts everything the grammar accepts          @props C01
+            parse_msg(buf@) is Some ==> r is Ok, // @props C01
+            dec_post(buf@, r), // @props C01''', props=PROPS)
     u.after(FROM_BYTES, r'let mut idx = options_start;',
             '                let ghost mut acc: Seq<(u16, Seq<u8>)> = Seq::empty();')
     u.after(FROM_BYTES, r'BTreeMap::new\(\);',
